@@ -204,11 +204,10 @@ pub fn shr(a: &[bool], k: u128) -> Bits {
     let n = a.len();
     (0..n)
         .map(|i| {
-            let j = i as u128 + k;
-            if j < n as u128 {
-                a[j as usize]
-            } else {
-                false
+            // k may be as large as u128::MAX: the index must not wrap
+            match (i as u128).checked_add(k) {
+                Some(j) if j < n as u128 => a[j as usize],
+                _ => false,
             }
         })
         .collect()
